@@ -791,6 +791,31 @@ def trace_worker(job):
     return dict(id=tid, cfg=cfg, tree=tree, events=ev, xml=built.xml())
 
 
+def validate_traces(recs: list, wd: str, chk=None) -> dict:
+    """Have TLC (TraceTreeBuild) judge recorded traces; returns id -> verdict."""
+    os.makedirs(wd, exist_ok=True)
+    verdicts: dict = {}
+    batches = core.chunked(recs, max(1, (len(recs) + 299) // 300))
+    for bi, batch in enumerate(batches):
+        path = os.path.join(wd, f'traces{bi}.json')
+        with open(path, 'w') as f:
+            json.dump([{k: r[k] for k in ('id', 'cfg', 'tree', 'events')} for r in batch], f)
+        cfgtxt = tla.cfg_text(dict(MaxItems=1, ItemKinds={"e"}, TextOpts={True}, TailOpts={True}, AttrCounts={0},
+                                   DeclOpts={E}, Variants={"etree"}, RootArgs={"elem"}, Fragments={"none"}, NsArgs={E},
+                                   MaxSibs=0, Emit=False),
+                              spec='TSpec', invariants=['TypeOK', 'PopSafe', 'GapSafe', 'Refinement'])
+        r = tla.require_ok(tla.run_tlc('TraceTreeBuild', cfgtxt, wd, env={'C02_TRACES': path}, workers=min(8, PROCS)),
+                           f'TraceTreeBuild batch {bi}')
+        if chk is not None:
+            chk.model(f'TraceTreeBuild/batch{bi}', r)
+            chk.add('transitions', r.generated)
+        for line in r.output.splitlines():
+            if line.startswith('"<<\\"c02t'):
+                v = tla.parse_value(line.strip()[1:-1].replace('\\"', '"'))
+                verdicts[v[1]] = dict(exact=v[2], order=v[3], first_diff=v[4], n_events=v[5])
+    return verdicts
+
+
 def run_traces(chk: core.Check) -> None:
     par = TRACES[chk.tier]
     rnd = random.Random(chk.seed * 7919 + 2)
@@ -810,28 +835,7 @@ def run_traces(chk: core.Check) -> None:
         b['id'] = 900002
         del b['events'][len(b['events']) // 2]         # a node is missing
         corrupt = [a, b]
-    wd = os.path.join(chk.scratch, 'traces')
-    os.makedirs(wd, exist_ok=True)
-    verdicts: dict = {}
-    batches = core.chunked(recs + corrupt, max(1, (len(recs) + 299) // 300))
-    tot_states = 0
-    for bi, batch in enumerate(batches):
-        path = os.path.join(wd, f'traces{bi}.json')
-        with open(path, 'w') as f:
-            json.dump([{k: r[k] for k in ('id', 'cfg', 'tree', 'events')} for r in batch], f)
-        cfgtxt = tla.cfg_text(dict(MaxItems=1, ItemKinds={"e"}, TextOpts={True}, TailOpts={True}, AttrCounts={0},
-                                   DeclOpts={E}, Variants={"etree"}, RootArgs={"elem"}, Fragments={"none"}, NsArgs={E},
-                                   MaxSibs=0, Emit=False),
-                              spec='TSpec', invariants=['TypeOK', 'PopSafe', 'GapSafe', 'Refinement'])
-        r = tla.require_ok(tla.run_tlc('TraceTreeBuild', cfgtxt, wd, env={'C02_TRACES': path}, workers=min(8, PROCS)),
-                           f'TraceTreeBuild batch {bi}')
-        chk.model(f'TraceTreeBuild/batch{bi}', r)
-        chk.add('transitions', r.generated)
-        tot_states += r.distinct
-        for line in r.output.splitlines():
-            if line.startswith('"<<\\"c02t'):
-                v = tla.parse_value(line.strip()[1:-1].replace('\\"', '"'))
-                verdicts[v[1]] = dict(exact=v[2], order=v[3], first_diff=v[4], n_events=v[5])
+    verdicts = validate_traces(recs + corrupt, os.path.join(chk.scratch, 'traces'), chk)
     byid = {r['id']: r for r in recs + corrupt}
     missing = [i for i in byid if i not in verdicts]
     if missing:
@@ -1089,9 +1093,14 @@ def replay(rec: dict) -> int:
             print('observed :', repr(ex))
             print('VIOLATION property=C02 replay=(replayed)')
             return 1
-        same = ev == case.get('events')
-        print('events now', 'identical to the rejected recording' if same else 'differ from the rejected recording')
-        if same:
+        import shutil
+        wd = os.path.join(core.VERIF, '.scratch', f'C02-replay-{os.getpid()}')
+        try:
+            v = validate_traces([dict(id=1, cfg=case['cfg'], tree=case['tree'], events=ev)], wd)[1]
+        finally:
+            shutil.rmtree(wd, ignore_errors=True)
+        print('TraceTreeBuild verdict on the events recorded now:', v)
+        if not v['order']:
             print('VIOLATION property=C02 replay=(replayed)')
             return 1
         return 0
